@@ -122,7 +122,7 @@ def gen_trace20(rng, tier='quick'):
                        if mvs[effective_top(scene)[j]['id']].get('dtype') != 'int64']
     drags = []
     world = dict(algebra=dict(p=p, q=q, r=r), mvs=mvs, scene=scene, options=options,
-                 single_callable=rng.random() < 0.15,
+                 single_callable=rng.choice([False] * 8 + ['lazy', 'eager']),
                  latency=dict(base=rng.choice([0.001, 0.004]), jitter=rng.choice([0.0, 0.01, 0.06]), p_slow=rng.choice([0, 0.1, 0.3])),
                  p_dup=rng.choice([0, 0, 0.1, 0.3]), float32=rng.random() < 0.8,
                  rerender_on_change=rng.random() < 0.5, max_reports=rng.choice([10, 25, 40]))
